@@ -369,7 +369,7 @@ theorem wl_generate_noZero (title : Word → Word) (w : WLRecipe) : NoZero (WLRe
 example :
     let cfg : Cfg := shippedCfg []
     (match (genChars cfg default).run [1, 2, 3] with | .done (.err .length) _ => true | _ => false) = true ∧
-    (match (WLRecipe.generate cfg id { list := none, length := 3, sep := .char [], capitalize := "" }).run [1]
+    (match (WLRecipe.generate cfg id { list := none, length := 3, sepChar := [], capitalize := "" }).run [1]
       with | .done (.err .noList) _ => true | _ => false) = true := by
   decide
 
